@@ -147,6 +147,23 @@ def run_part(prop, part, tier, replay=None, seed=0, known_file=None, binary=None
     race = part.get("race", False)
     binary = binary or build_test(mode, pkg, race)
     nshards = 1 if replay else min(NCPU, part.get("shards", NCPU))
+    frontier = None
+    pre_results = []
+    if part.get("two_phase") and not replay and nshards > 1:
+        # phase 1: one process expands every scenario's choice tree breadth-first into subtree roots
+        frontier = os.path.join(os.path.dirname(binary), "%s-%s-frontier.json" % (prop, test))
+        env = goenv()
+        outp = os.path.join(os.path.dirname(binary), "%s-%s-phase1.json" % (prop, test))
+        env.update({"VERIF_TIER": tier, "VERIF_SHARD": "0", "VERIF_NSHARDS": str(nshards), "VERIF_OUT": outp, "VERIF_SEED": str(seed),
+                    "GOMAXPROCS": "1", "VERIF_FRONTIER_OUT": frontier, "VERIF_REPLAY_DIR": os.path.join(VERIF, "replays")})
+        if known_file:
+            env["VERIF_KNOWN"] = known_file
+        r = subprocess.run([binary, "-test.run", "^%s$" % test, "-test.count=1", "-test.timeout=0"], cwd=os.path.join(REPO, pkg), env=env,
+                           capture_output=True, text=True, preexec_fn=limit)
+        if os.path.exists(outp):
+            pre_results.append(json.load(open(outp)))
+        else:
+            return [], ["%s phase 1 produced no result (exit %s): %s" % (test, r.returncode, (r.stdout + r.stderr)[-3000:])]
     time_s = part.get("time_s", {}).get(tier, 0)
     rundir = os.path.dirname(binary)
     procs = []
@@ -166,13 +183,15 @@ def run_part(prop, part, tier, replay=None, seed=0, known_file=None, binary=None
             env["VERIF_KNOWN"] = known_file
         if replay:
             env["VERIF_REPLAY"] = os.path.abspath(replay)
+        if frontier:
+            env["VERIF_FRONTIER_IN"] = frontier
         cmd = [binary, "-test.run", "^%s$" % test, "-test.count=1", "-test.timeout=0"]
         if replay:
             cmd.append("-test.v")
         logf = open(outp + ".log", "w")
         p = subprocess.Popen(cmd, cwd=os.path.join(REPO, pkg), env=env, stdout=logf, stderr=subprocess.STDOUT, preexec_fn=limit)
         procs.append((p, outp, logf))
-    results, herr = [], []
+    results, herr = list(pre_results), []
     wall_cap = part.get("wall_cap", {}).get(tier, 3600 if tier == "quick" else 6 * 3600)
     t0 = time.time()
     for p, outp, logf in procs:
@@ -277,6 +296,8 @@ def merge(prop, tier, seed, level, parts_results, herr, wall):
                     m["sample"].append(x)
         for v in res.get("violations") or []:
             viols.setdefault((v["scenario"], v["sig"]), v)
+    if os.environ.get("VERIF_DEBUG_SHARDS"):
+        log("shard walls: " + " ".join("%.1f" % r.get("wall_s", 0) for r in parts_results))
     execs = sum(m["execs"] for m in scen.values())
     steps = sum(m["steps"] for m in scen.values())
     nodes = sum(m["choice_nodes"] for m in scen.values())
